@@ -2880,6 +2880,16 @@ class TrackFragmentRunBox(FullBox):
             self.options.log.info('%s: Failed to find mdat box', self._fullname)
             return
         mdat_sample_start = moof.position + moof.size + mdat.header_size
+        if moof.parent is not None:
+            # other boxes, such as free, can lie between the moof and the mdat
+            between = False
+            for peer in moof.parent.children:
+                if peer is mdat:
+                    break
+                if between:
+                    mdat_sample_start += peer.size
+                elif peer is moof:
+                    between = True
 
         base_data_offset: int = moof.traf.tfhd.current_base_data_offset()
         first_sample_pos: int = base_data_offset
